@@ -215,6 +215,47 @@ def run(ctx):
                 ch = [k for k in set(before) | set(after) if before.get(k) != after.get(k)]
                 ctx.violation(f"script|{mode}|decoy-changed", f"files outside the cache changed: {ch[:4]}", det_base)
             ctx.rm(base)
+    # (1b) a cache that holds nothing but index entries, inside otherwise empty parent directories: clean-up code
+    # must not climb out of the cache directory
+    import json as _json
+    for mode in modes:
+        base = ctx.new_dir(f"lonely-{mode.replace('@', '-')}")
+        nest = os.path.join(base, "empty-parent-1", "empty-parent-2")
+        os.makedirs(nest)
+        cache = os.path.join(nest, "the-cache")
+        m = drv.MODES[mode][1]
+        sri = ref.sri("sha256", b"never stored")
+        script = [
+            {"op": "index_insert", "mode": m, "cache": cache, "key": "only-entry", "opts": {"sri": sri, "time": "1"}},
+            {"op": "remove_fully", "mode": m, "cache": cache, "key": "only-entry"},
+            {"op": "write", "mode": m, "cache": cache, "key": "k2", "data": {"hex": "6161"}},
+            {"op": "clear", "mode": m, "cache": cache},
+            {"op": "index_insert", "mode": m, "cache": cache, "key": "k3", "opts": {"sri": sri, "time": "2"}},
+            {"op": "remove_fully", "mode": m, "cache": cache, "key": "k3"},
+            {"op": "remove", "mode": m, "cache": cache, "key": "k4"},
+            {"op": "remove_fully", "mode": m, "cache": cache, "key": "k4"},
+        ]
+        spath = os.path.join(base, "script.jsonl")
+        with open(spath, "w") as f:
+            for q in script:
+                f.write(_json.dumps(q) + "\n")
+        res = sysm.run([[build.ensure(drv.MODES[mode][0]), "run", spath]], [base], base, timeout=60)
+        ops = split_ops(res.events)
+        for q, evs in zip(script, ops):
+            ctx.case(distinct_key=("lonely", mode, q["op"], q["key"] if "key" in q else ""))
+            for e in evs:
+                if not sysm.is_mutating(e) or e.get("ret") is None or e["ret"] < 0:
+                    continue
+                for t in sysm.mutation_targets(e):
+                    if t and not nonfile(t) and not (t == cache or t.startswith(cache + "/")):
+                        ctx.violation(f"{q['op']}|{mode}|mutation-outside-cache|{e['name']}",
+                                      f"{q['op']} on a cache holding only index entries performed {e['name']} on {t!r}, outside "
+                                      f"the cache directory", {"steps": [[mode, x] for x in script], "mode": mode})
+        if not os.path.isdir(nest):
+            ctx.violation(f"remove_fully|{mode}|parent-directory-removed",
+                          "a directory above the cache directory was removed", {"steps": [[mode, x] for x in script]})
+        ctx.count("lonely_index_scripts")
+        ctx.rm(base)
     # (5) opaqueness of keys
     groups = gen.CONFUSABLE_GROUPS
     for gi, grp in enumerate(groups):
